@@ -372,6 +372,12 @@ def gen_cases(tier):
             for c in cuts:
                 yield {'tool': tool, 'files': [['a.lis', 'LX:' + c], ['b.lis', 'L']], 'channels': []}
                 yield {'tool': tool, 'files': [['a.lis', 'L'], ['b.lis', 'LX:' + c], ['c.lis', 'Lb']], 'channels': []}
+        # sub-directories that sort before other entries of their directory (the sequential walk is alphabetical, the pool's by size)
+        yield {'tool': tool, 'files': [['a' + EXT[g0], g0], ['m/b' + EXT[g1], g1], ['z' + EXT[g0], g0]], 'channels': []}
+        yield {'tool': tool, 'files': [['m/a' + EXT[g0], g0], ['p/b' + EXT[g1], g1], ['m/q/c' + EXT[g0], g0], ['m/z' + EXT[g1], g1]], 'channels': []}
+        # a foreign text file cut inside its first line / after it
+        for cut in ('LAS:bytes2', 'LAS:bytes12', 'LAS:bytes30', 'DAT:bytes5'):
+            yield {'tool': tool, 'files': [['a' + EXT[g0], g0], ['b.las', cut], ['c' + EXT[g1], g1]], 'channels': []}
         # output name collisions
         yield {'tool': tool, 'files': [['a' + EXT[g0], g0], ['a' + EXT[g0].upper(), gb]], 'channels': []}
         # a long batch handled by one process (sequential run, one worker, two workers)
